@@ -130,6 +130,162 @@ def suffix_lemma(cell=None):
             'message': f'z3: {r}; base64 model validated on 2000 digests', 'tags': {'lemma': 1}}
 
 
+# ---------------------------------------------------------------------------------------------- H1c (E4)
+def _alnum(c):
+    import z3
+    return z3.Or(z3.And(c >= 48, c <= 57), z3.And(c >= 65, c <= 90), z3.And(c >= 97, c <= 122))
+
+
+def _namech(c):
+    import z3
+    return z3.Or(_alnum(c), c == 45, c == 46, c == 95)
+
+
+def _idch(c):
+    import z3
+    return z3.Or(_namech(c), c == 47, c == 60, c == 62)          # plus / < >
+
+
+SMT_VECTORS = ['fn', 'fn/sub1/sub2', 'a.b<c>/d', 'x' * 63, 'x' * 64, 'x' * 70, 'a' * 60 + '/' + 'b' * 240, 'k_' + 'y' * 298]
+
+
+def _names_model(fn, tag=''):
+    """The real make_v1_key/make_v2_key (and make_safe_key, which they call) translated from their CURRENT source into
+    terms over symbolic strings; make_suffix (a hash) is an arbitrary string of the shape proven by `suffix_lemma`."""
+    from vkopf import astsmt
+    SK = conventions.StorageKeyFormingConvention
+    key, prefix = astsmt.BaseStr('key' + tag), astsmt.BaseStr('prefix')
+    sufs = []
+
+    def make_safe_key(tr, k):
+        paths, _ = astsmt.translate(SK.make_safe_key, {'key': k})
+        return astsmt.result_term(paths)
+
+    def make_suffix(tr, k):
+        sufs.append((astsmt.BaseStr(f'suf{tag}{len(sufs)}'), k))
+        return sufs[-1][0]
+    paths, _ = astsmt.translate(fn, {'key': key, 'self.prefix': prefix}, {'make_safe_key': make_safe_key, 'make_suffix': make_suffix})
+    return key, prefix, sufs, astsmt.result_term(paths)
+
+
+def _validate_translation(fn):
+    """Translation validation: the repository's kind of ids through the real function and through the encoding."""
+    from vkopf import astsmt
+    for pfx in ('kopf.zalando.org', 'p.io', 'a' * 40 + '.example.com'):
+        st = conventions.StorageKeyFormingConvention(prefix=pfx, v1=True)
+        for k in SMT_VECTORS:
+            key, prefix, sufs, full = _names_model(fn)
+            cons = key.bind(k) + prefix.bind(pfx)
+            real = fn(st, k)
+            # the hashed argument is what the real code hashes (validated by asking the encoding for it)
+            for suf, arg in sufs:
+                argtext = astsmt.evaluate_concrete(arg, cons)
+                cons = cons + suf.bind(st.make_suffix(argtext))
+            got = astsmt.evaluate_concrete(full, cons)
+            if got != real:
+                return f'encoding of {fn.__name__} disagrees with the real function for prefix {pfx!r}, id {k[:20]!r}..: {got!r} != {real!r}'
+    return None
+
+
+def smt_names(cell=None, replay=None):
+    """E4: validity of generated annotation names at the REAL limits (63/253, ids of 1..300 characters, prefixes of
+    pmin..pmax characters), decided by z3 on a formula generated from the source AST. Six goals per query set; `unsat` of a
+    negated goal = the goal holds for all ids/prefixes in the bounds."""
+    import z3
+    from vkopf import astsmt
+    cell = cell or vkopf.cell() or {}
+    SK = conventions.StorageKeyFormingConvention
+    fn = SK.make_v1_key if cell.get('v1') else SK.make_v2_key
+    pmin, pmax, kmax = cell.get('pmin', 1), cell.get('pmax', 189), cell.get('kmax', 300)
+    if replay is not None:
+        # concrete replay against the real code: does the real name violate the goal?
+        import warnings
+        with warnings.catch_warnings():
+            warnings.simplefilter('ignore')
+            st = SK(prefix=replay['prefix'], v1=True)
+        full = fn(st, replay['key'])
+        ok = full.startswith(replay['prefix'] + '/') and valid_name(full[len(replay['prefix']) + 1:], 63) and len(full) <= 253
+        return True if ok else False
+    t0 = time.time()
+    err = _validate_translation(fn)
+    if err:
+        return {'status': 'harness_error', 'message': err}
+    key, prefix, sufs, full = _names_model(fn)
+    j, i = z3.Int('j'), z3.Int('i')
+    name = astsmt.py_slice(full, prefix.length + 1, None)
+    goals = {
+        'prefixed': z3.And(full.length >= prefix.length + 1,
+                           z3.Implies(z3.And(i >= 0, i < prefix.length), full.ch(i) == prefix.ch(i)), full.ch(prefix.length) == 47),
+        'name_len': z3.And(name.length >= 1, name.length <= 63),
+        'total_len': full.length <= 253,
+        'first_alnum': _alnum(name.ch(z3.IntVal(0))),
+        'last_alnum': _alnum(name.ch(name.length - 1)),
+        'charset': z3.Implies(z3.And(j >= 0, j < name.length), _namech(name.ch(j))),
+    }
+    pre = [key.length >= 1, key.length <= kmax, prefix.length >= pmin, prefix.length <= pmax] + [sf.length == 7 for sf, _ in sufs]
+    queries, found = 0, None
+    for g, term in goals.items():
+        s = z3.Solver()
+        s.set('timeout', 60000)
+        s.add(*pre)
+        s.add(z3.Not(term))
+        # hypotheses, instantiated at every index at which a character of an input is read:
+        #   ids over [A-Za-z0-9_./<>-] that start and end alphanumeric (other ids: known finding F4);
+        #   suffix = '-' + 5 of [A-Za-z0-9.-] + 1 alphanumeric (suffix_lemma)
+        s.add(*key.instances(lambda a, c: z3.And(_idch(c), z3.Implies(a == 0, _alnum(c)), z3.Implies(a == key.length - 1, _alnum(c)))))
+        for sf, _ in sufs:
+            s.add(*sf.instances(lambda a, c: z3.And(z3.Or(_alnum(c), c == 45, c == 46), z3.Implies(a == 0, c == 45), z3.Implies(a == 6, _alnum(c)))))
+        r = str(s.check())
+        queries += 1
+        if r == 'sat':
+            m = s.model()
+            k = key.concrete(m)
+            k = (k[:1] if k[:1].isalnum() else 'a') + k[1:-1] + ((k[-1:] if k[-1:].isalnum() else 'a') if len(k) > 1 else '')
+            found = {'goal': g, 'key': k, 'prefix': prefix.concrete(m)}
+            break
+        if r != 'unsat':
+            return {'status': 'inconclusive', 'message': f'z3 {r} on goal {g}', 'paths': queries, 'queries': queries}
+    out = {'paths': queries, 'harness_calls': queries, 'nontrivial_paths': queries, 'queries': queries,
+           'solver_s': round(time.time() - t0, 3), 'tags': {'smt_goal': queries}}
+    if found:
+        out.update(status='counterexample', args={'replay': found}, message=f'z3: sat for goal {found["goal"]}')
+    else:
+        out.update(status='confirmed', message=f'z3: all {queries} negated goals unsat (ids 1..{kmax}, prefixes {pmin}..{pmax}, limits 63/253); '
+                                               f'encoding validated on {len(SMT_VECTORS) * 3} ids')
+    return out
+
+
+def smt_distinct(cell=None, replay=None):
+    """E4: two long ids (> 63 characters) under one prefix get the same v2 name only if their hash suffixes coincide
+    (so: distinct names modulo a collision of the 32-bit digest) -- for ids up to 300 characters, real limit 63."""
+    import z3
+    from vkopf import astsmt
+    SK = conventions.StorageKeyFormingConvention
+    if replay is not None:
+        return True
+    t0 = time.time()
+    err = _validate_translation(SK.make_v2_key)
+    if err:
+        return {'status': 'harness_error', 'message': err}
+    k1, prefix, sufs1, full1 = _names_model(SK.make_v2_key, '1')
+    k2, prefix2, sufs2, full2 = _names_model(SK.make_v2_key, '2')
+    (s1, _), (s2, _) = sufs1[0], sufs2[0]
+    j = z3.Int('j')
+    s = z3.Solver()
+    s.set('timeout', 60000)
+    s.add(k1.length > 63, k1.length <= 300, k2.length > 63, k2.length <= 300, prefix.length >= 1, prefix.length <= 189,
+          prefix2.length == prefix.length, s1.length == 7, s2.length == 7)
+    # equal names (instantiated where it matters: the position of the j-th suffix character) ...
+    idx = full1.length - 7 + j
+    s.add(full1.length == full2.length, full1.ch(idx) == full2.ch(idx))
+    # ... and yet different suffixes
+    s.add(j >= 0, j < 7, s1.ch(j) != s2.ch(j))
+    r = str(s.check())
+    out = {'paths': 1, 'harness_calls': 1, 'nontrivial_paths': 1, 'queries': 1, 'solver_s': round(time.time() - t0, 3), 'tags': {'smt_goal': 1}}
+    out.update(status='confirmed' if r == 'unsat' else 'inconclusive', message=f'z3: {r}')
+    return out
+
+
 # ---------------------------------------------------------------------------------------------- H2
 IDS = ['fn', 'fn/sub1/sub2', 'fn/spec.field', 'x' * 70, 'a' * 60 + '/' + 'b' * 240, 'create_fn.very-long_name-' + 'y' * 45]
 MSGS = [None, 'plain', 'quo"te\\slash', 'юникод ✓', '']
@@ -144,7 +300,7 @@ def make_storage(kind, prefix, v1):
 
 
 def h_roundtrip(idx: int, other: int, retries: int, success: bool, has_delayed: bool, msg: int, has_subrefs: bool, drs: bool,
-                has_user: bool) -> bool:
+                has_user: bool, prior_other_kind: bool = False) -> bool:
     """
     pre: 0 <= idx <= 5 and 0 <= other <= 5 and idx != other and 0 <= retries <= 2 and 0 <= msg <= 4
     post: _ == True
@@ -166,6 +322,18 @@ def h_roundtrip(idx: int, other: int, retries: int, success: bool, has_delayed: 
     if has_user:
         raw['metadata']['annotations'] = {'user/note': 'keep', 'kubectl.kubernetes.io/last-applied-configuration': '{}'}
         raw['status'] = {'phase': 'Ready'}
+    if prior_other_kind:
+        # the same storage instance has served the same handler id on an object of the other kind before
+        # (a ReplicaSet of a Deployment vs. anything else): names depend on the object, not on the history of the storage
+        other_raw = base_body()
+        if not drs:
+            other_raw['kind'] = 'ReplicaSet'
+            other_raw['metadata']['ownerReferences'] = [{'kind': 'Deployment', 'name': 'd'}]
+        st.fetch(key=IDS[idx], body=bodies.Body(other_raw))
+        st.store(key=IDS[idx], record=progress.ProgressRecord(started='2020-01-01T00:00:00', retries=0, success=False, failure=False,
+                                                              message=None, delayed=None, stopped=None, purpose='create', subrefs=None),
+                 body=bodies.Body(other_raw), patch=patches.Patch())
+        vkopf.witness('prior_other_kind')
     # another handler's record and another operator's record are already there
     p0 = patches.Patch()
     rec_other = progress.ProgressRecord(started='2020-01-01T00:00:00', retries=5, success=False, failure=False, message=None,
@@ -185,6 +353,10 @@ def h_roundtrip(idx: int, other: int, retries: int, success: bool, has_delayed: 
     got = st.fetch(key=IDS[idx], body=bodies.Body(stored))
     want = {k: v for k, v in rec.items() if v is not None}
     if got is None or {k: v for k, v in got.items() if v is not None} != want:
+        ok = False
+    # identical across restarts: a fresh storage instance (a new operator process) reads the same record back
+    got2 = make_storage(kind, prefix, v1).fetch(key=IDS[idx], body=bodies.Body(stored))
+    if got2 is None or {k: v for k, v in got2.items() if v is not None} != want:
         ok = False
     # never disturbs other handlers' records, other operators' records, user data
     if st.fetch(key=IDS[other], body=bodies.Body(stored)) != st.fetch(key=IDS[other], body=bodies.Body(before)):
@@ -208,6 +380,8 @@ def h_roundtrip(idx: int, other: int, retries: int, success: bool, has_delayed: 
                 if not (v1 and len(k) <= 63):
                     ok = False
             if drs and not ('-ofDRS' in k or len(IDS[idx]) > 50):
+                ok = False
+            if not drs and '-ofDRS' in k:
                 ok = False
         if drs:
             vkopf.witness('drs')
@@ -298,6 +472,11 @@ def obligations():
                           tiers=('quick', 'thorough') if q else ('thorough',), twins=['cut'] if q and not v1 else []))
     obs.append(Ob('h_names', {'v1': False, 'exclude_known': False, 'only_f4': True}, expect='counterexample', finding='F4', timeout=600))
     obs.append(Ob('suffix_lemma', {}, engine='smt', timeout=120))
+    # E4 at the real limits: formula generated from the AST of make_v1_key/make_v2_key/make_safe_key
+    obs.append(Ob('smt_names', {'v1': False, 'pmin': 1, 'pmax': 189}, engine='smt', timeout=600))
+    obs.append(Ob('smt_names', {'v1': True, 'pmin': 1, 'pmax': 54}, engine='smt', timeout=600))
+    obs.append(Ob('smt_names', {'v1': True, 'pmin': 55, 'pmax': 189}, engine='smt', timeout=600, expect='counterexample', finding='F14'))
+    obs.append(Ob('smt_distinct', {}, engine='smt', timeout=600))
     combos = [('annotations', 'kopf.zalando.org', True), ('smart', 'kopf.zalando.org', True), ('status', 'kopf.zalando.org', True),
               ('annotations', 'my.op.io', False), ('smart', 'my.op.io', False)]
     for i, (kind, prefix, v1) in enumerate(combos):
@@ -308,7 +487,7 @@ def obligations():
                               tiers=('quick',), timeout=900))
         obs += sample(Ob('h_roundtrip', cell, timeout=900, tiers=('thorough',)), 14, seed=160 + i, idx=[0, 1, 2, 3, 4, 5], other=[0, 3], has_user=[False, True])
     obs.append(Ob('h_roundtrip', {'storage': 'annotations', 'prefix': 'kopf.zalando.org', 'v1': True}, tiers=('quick', 'thorough'),
-                  timeout=300, twins=['roundtrip', 'drs'], main=False))
+                  timeout=300, twins=['roundtrip', 'drs', 'prior_other_kind'], main=False))
     for kind, prefix, v1 in (('annotations', 'kopf.zalando.org', True), ('multi', 'my.op.io', False), ('status', 'kopf.zalando.org', True)):
         obs.append(Ob('h_diffbase', {'storage': kind, 'prefix': prefix, 'v1': v1}, timeout=600,
                       twins=['empty_essence'] if kind == 'annotations' else []))
